@@ -517,6 +517,27 @@ static DataSubset *bufr_duplicate_datasubset( DataSubset *dss, BUFR_Tables *tbls
          bc->etb = bufr_fetch_tableB( tbls, bc->descriptor );
       arr_add( subset->data , (char *)&bc );
       }
+/*
+ * qualifiers are pointers to earlier descriptors of the same subset: those of the copy must point into the copy,
+ * not into the subset it was copied from
+ */
+   for (i = 0; i < count ; i++ )
+      {
+      BufrDescriptor *src = bufr_datasubset_get_descriptor( dss, i );
+      int             j, k, n;
+
+      bc = bufr_datasubset_get_descriptor( subset, i );
+      if ((bc->meta == NULL)||(bc->meta->nb_qualifiers <= 0)) continue;
+      n = 0;
+      for (j = 0; j < bc->meta->nb_qualifiers ; j++)
+         {
+         for (k = i-1; k >= 0 ; k--)
+            if (bufr_datasubset_get_descriptor( dss, k ) == src->meta->qualifiers[j]) break;
+         if (k >= 0)
+            bc->meta->qualifiers[n++] = bufr_datasubset_get_descriptor( subset, k );
+         }
+      bc->meta->nb_qualifiers = n;
+      }
 
    return subset;
    }
